@@ -60,6 +60,29 @@ theorem testament_storage_order_independent (v : Variant) (r r' : Rev)
 
 example : ([1, 2, 3] : List Nat).Perm [3, 1, 2] := by decide
 
+/-- **Parent order.**  The same merge recorded with its parents in any other
+stored order (which parent is the left-hand one) has the same testament - long
+form, line list and, for every digest function, short form - or raises the same
+exception, in every class -/
+theorem testament_parent_order_independent (sha : Str → Str) (v : Variant) (r : Rev) (ps : List Str)
+    (hpar : r.parents.Perm ps) :
+    text v r = text v { r with parents := ps } ∧ textLines v r = textLines v { r with parents := ps } ∧
+    shortText sha v r = shortText sha v { r with parents := ps } := by
+  have s1 := sortStrs_perm hpar
+  have hcheck : check r = check { r with parents := ps } := by
+    unfold check; simp only [s1]
+  have hrender : render v r = render v { r with parents := ps } := by
+    unfold render timestampOf timezoneOf; simp only [s1]
+  have ht : text v r = text v { r with parents := ps } := by
+    unfold text; rw [hcheck, hrender]
+  refine ⟨ht, ?_, ?_⟩
+  · unfold textLines; rw [hcheck, hrender]
+  · unfold shortText; rw [ht]
+
+example : (["rev-b".toList, "rev-a".toList] : List Str).Perm ["rev-a".toList, "rev-b".toList] ∧
+    (["rev-b".toList, "rev-a".toList] : List Str) ≠ ["rev-a".toList, "rev-b".toList] := by decide
+
+
 /-! ### sensitivity -/
 
 /-- **Injectivity modulo normalisation** (partial: see the `_witness`
